@@ -48,6 +48,48 @@ def entropy(seed):
         random.setstate(state)
 
 
+KEY_PATTERNS = ["tail_lf", "tail_crlf", "tail_nul", "tail_space", "head_nul", "head_space", "ascii_digits", "pickle_frame", "tail_pad16"]
+
+
+@contextlib.contextmanager
+def patterned(pattern):
+    """inside this block every os.urandom(n) result (still DRBG output) gets structured CONTENT at its ends -- any byte string of
+    the right length is a value KeyGen may return, so keys ending in a line break, a NUL, a blank, padding-like bytes ... are keys"""
+    inner = os.urandom
+
+    def read(n):
+        b = bytearray(inner(n))
+        n = len(b)
+        if n == 0:
+            return bytes(b)
+        if pattern == "tail_lf":
+            b[-1:] = b"\n"
+        elif pattern == "tail_crlf" and n >= 2:
+            b[-2:] = b"\r\n"
+        elif pattern == "tail_nul":
+            b[-min(n, 3):] = b"\x00" * min(n, 3)
+        elif pattern == "tail_space":
+            b[-min(n, 2):] = b" " * min(n, 2)
+        elif pattern == "head_nul":
+            b[:min(n, 2)] = b"\x00" * min(n, 2)
+        elif pattern == "head_space":
+            b[:1] = b" "
+        elif pattern == "ascii_digits":
+            b[:] = bytes(0x30 + (x % 10) for x in b)
+        elif pattern == "pickle_frame" and n >= 4:
+            b[:3] = b"\x80\x04\x95"
+            b[-1:] = b"."
+        elif pattern == "tail_pad16":
+            k = min(n, 16)
+            b[-k:] = bytes([k]) * k
+        return bytes(b)
+    os.urandom = read
+    try:
+        yield
+    finally:
+        os.urandom = inner
+
+
 def stream(seed, label=b""):
     """Independent deterministic byte source for harness-side content (keywords, identifiers)."""
     return DRBG((seed, label))
